@@ -35,4 +35,5 @@ Definition run (comp : Z) (inp : list Z) : list Z :=
   else if comp =? 80 then run_msg2str inp
   else if comp =? 81 then run_parse_string inp
   else if comp =? 82 then run_parse_stream inp
+  else if comp =? 90 then run_backend inp
   else [-3].
